@@ -859,8 +859,7 @@ class Object(base.Symbolic, metaclass=ObjectMeta):
     """Copy flags."""
     kwargs = dict()
     for k, v in self._sym_attributes.sym_items():
-      if deep or isinstance(v, base.Symbolic):
-        v = base.clone(v, deep, memo)
+      v = base.clone_member(v, deep, memo)
       kwargs[k] = v
     other = self.__class__(allow_partial=self._allow_partial,
                            sealed=self._sealed,
